@@ -45,7 +45,8 @@ CLAIMS["C05"] = dict(
     category="other",
     text="Contract proofs of the extracted multiple-direction node step and sweep: own single receiver iff terminal or no strictly lower unmasked "
          "neighbour; otherwise the receiver slots equal, as a multiset of (node, distance), the strictly lower unmasked neighbour slots; donor "
-         "entries; weights in [0,1] whenever slope^p stays in the normal range. 'Weights finite for every input' fails on the current tree: "
+         "entries; weights in [0,1] whenever slope^p stays in the normal range -- for neighbour lists of <= 2 slots (inner loops unwound), <= 4 and <= 8 "
+         "slots (quick resp. thorough tier; the neighbour scan and the normalisation loop closed by loop contracts over the constant slots). 'Weights finite for every input' fails on the current tree: "
          "known finding F5 (pow underflow/overflow), printed as KNOWN-FINDING; level is therefore 'other', not 'proof'.",
     note="Assumes the neighbour contract (C07), std::pow >= 0 only, abstracted quotients with bit-precise one-division lemmas. 'Proportional to "
          "slope^p / sum to one within rounding' is undecided (no bit-precise statement).",
